@@ -63,6 +63,9 @@ def check(col: Collector, tier: str):
     import_obligations(col, "C09.R12", "c06", lambda o: o.detail in ("new-code-value-for-every-call", "refuses-other-backends"),
                        "the collection call must stay the query's own node (a rebuilt call loses its keywords before the keyword refusal sees them) and a "
                        "declaration for another backend must be refused")
+    import_obligations(col, "C09.R12", "c07", lambda o: o.rule == "C07.R4" and o.detail == "reset-on-exception-exit",
+                       "a refusal that leaves its declarations behind turns the next query's refusal into a translation (whatever exception type the "
+                       "refusal ends in: KeyError for a missing mandatory key is one of them)")
     import_obligations(col, "C09.R12", "c18", lambda o: o.detail == "bank-name-argument-left-as-the-query-wrote-it",
                        "arguments that are rebuilt are arguments that can be dropped")
     # a name is refused unless it is bound where it is used: a lambda's parameters live in that lambda's frame only
